@@ -23,7 +23,7 @@ PROP = dict(
                "whose connection is already closed are discarded without a report (the session is offline; outside "
                "the write path this property is anchored in).",
     engines=[dict(hx="writebuf"), dict(hx="writesched", model="respond"), dict(hx="flushfault")],
-    theorems=["C34_flushed", "C34_drops_reported", "C34_refusals_reported", "C34_write_calls_shape", "C34_flushed_all_schedules", "C34_fault_monitor_sound"],
+    theorems=["C34_flushed", "C34_drops_reported", "C34_refusals_reported", "C34_write_calls_shape", "C34_flushed_all_schedules", "C34_fault_monitor_sound", "C34_flushed_despite_faults", "C34_fault_model_extends"],
     model_files="coq/IO/WriteBuf.v",
     rule="240 (thorough 6000) histories of 14 (24) steps on one MQTT 5 subscriber (w/# QoS 0, x/# QoS 1) with write "
          "buffer 64/16/200 bytes, three flavours: Maximum Packet Size 50 with a third of the payloads at 60 bytes "
